@@ -141,7 +141,7 @@ class CallSite:
         return False
 
     def where(self):
-        return "%s:%s" % (self.fn.file, self.line)
+        return "%s:%s" % (self.fn.blocks[self.bb].get("file") or self.fn.file, self.line)
 
     def __repr__(self):
         return "call %s @bb%d (%s)" % (norm(self.name), self.bb, self.where())
@@ -214,7 +214,7 @@ class Fn:
     def where(self, b=None):
         if b is None:
             return self.span
-        return "%s:%s" % (self.file, self.term(b).get("l"))
+        return "%s:%s" % (self.blocks[b].get("file") or self.file, self.term(b).get("l"))
 
     def local_name(self, l):
         for n, p in self.d["names"]:
@@ -818,6 +818,101 @@ class Facts:
                     self.trait_impls[(norm(tr), it["name"])].append(it["key"])
                     if tr.split("::")[-1] in ("Drop", "PinnedDrop") and im.get("self_adt"):
                         self.drop_impls.append((im["self_adt"], it["key"]))
+
+    def inl(self, fn, depth=2, want=None):
+        """`fn` with crate-local callees spliced in (see inline.py); cached per (fn, depth) when no filter is given."""
+        import inline
+        if want is not None:
+            return inline.inline(self, fn, depth, want)
+        key = (fn.key, depth)
+        if not hasattr(self, "_inl"):
+            self._inl = {}
+        if key not in self._inl:
+            self._inl[key] = inline.inline(self, fn, depth)
+        return self._inl[key]
+
+    def _capture_index(self, fn, capname):
+        def walk(x):
+            if isinstance(x, list):
+                for y in x:
+                    r = walk(y)
+                    if r is not None:
+                        return r
+            elif isinstance(x, dict):
+                if isinstance(x.get("l"), int) and isinstance(x.get("p"), list):
+                    if x["l"] == 1:
+                        for e in x["p"]:
+                            if isinstance(e, dict) and e.get("n") == capname and "f" in e:
+                                return e["f"]
+                    return None
+                for v in x.values():
+                    if isinstance(v, (dict, list)):
+                        r = walk(v)
+                        if r is not None:
+                            return r
+            return None
+        for blk in fn.blocks:
+            r = walk(blk["s"])
+            if r is None:
+                r = walk(blk["t"])
+            if r is not None:
+                return r
+        return None
+
+    def roots_up(self, fn, operand_or_place, depth=3, **kw):
+        """Backward slice that continues through closure captures into the function that created the closure:
+        a root `arg:_1.cap:x` of a closure body is replaced by the roots of the captured operand at the creation site.
+        A value computed outside a closure and captured, or computed inside it, then has the same roots."""
+        rr = fn.roots(operand_or_place, **kw)
+        if depth <= 0:
+            return rr
+        parent = self.fns.get(fn.d.get("parent")) if fn.d.get("kind") in ("Closure", "InlineConst") or "{closure" in fn.key else None
+        if parent is None:
+            return rr
+        out = set()
+        for r in rr:
+            caps = [f for f in (getattr(r, "fields", ()) or ()) if isinstance(f, str) and f.startswith("cap:")]
+            if r.kind == "arg" and getattr(r, "index", None) == 1 and caps:
+                idx = self._capture_index(fn, caps[0])
+                sites = [(b, i, st) for (b, i, st, k) in parent.closures_created() if k == fn.key]
+                if idx is not None and sites and idx < len(sites[0][2]["r"]["ops"]):
+                    for (b, i, st) in sites:
+                        out |= self.roots_up(parent, st["r"]["ops"][idx], depth - 1, **kw)
+                    continue
+            out.add(r)
+        return out
+
+    def family(self, fn, depth=3):
+        """`fn` together with the code that is lexically / structurally part of it wherever a maintainer puts it: the closures
+        and async blocks it creates, the crate-local functions it calls (resolved callees with a body), function items it
+        passes by name, and the same for those, `depth` levels deep.  Used by site rules ("somewhere in the making of X, Y
+        is called with ...") so that extracting a helper or naming a closure does not move the site out of sight."""
+        seen = {fn.key: fn}
+        frontier = [fn]
+        for _ in range(depth):
+            nxt = []
+            for g in frontier:
+                keys = [k for (_, _, _, k) in g.closures_created()]
+                for b in g.live:
+                    t = g.term(b)
+                    if t["k"] == "call":
+                        if t.get("resl") and t.get("res") in self.fns and not is_noise(t):
+                            keys.append(t["res"])
+                        for a in t.get("args", []):
+                            k = a.get("k") if isinstance(a, dict) else None
+                            if k and k.get("fn") in self.fns:
+                                keys.append(k["fn"])
+                            if k and k.get("fna") in self.fns:
+                                keys.append(k["fna"])
+                for k in keys:
+                    if k in self.fns and k not in seen:
+                        seen[k] = self.fns[k]
+                        nxt.append(self.fns[k])
+            frontier = nxt
+        return list(seen.values())
+
+    def calls_in_family(self, fn, *names, depth=3):
+        return [c for g in self.family(fn, depth) for c in g.calls(*names)]
 
     def fn(self, nkey, required=True):
         """Function by generics-stripped key (exact) or unique `::`-suffix."""
